@@ -527,6 +527,7 @@ fn case(max_tasks: usize, pct: bool) -> impl Strategy<Value = Case> {
 
 pub fn run(ctx: &Ctx) -> ! {
     let mut rep = Report::new(ctx, "exploration");
+    rep.crash_guard = true;
     crate::engine_assumptions(&mut rep);
     rep.assume(
         "the lender is shared between tasks by std::sync::Arc (as memory::State shares it behind its map): lend/shared \
